@@ -10,26 +10,26 @@ From NTRIPGen Require Import GenConsts.
    the recorder goroutine, and at end of input closes the channel and waits for the recorder.
    In every reachable configuration in which the program has ended (main has returned), stdout
    and the record both hold exactly the input blocks, complete and in order. *)
-Theorem C16_logger : forall (V : Type) lat cap (blocks : list V) c, (1 <= cap)%nat ->
-  reachable _ _ _ (prog V lat true waits_rtcmlogger) sender receiver (MDone V) (init V cap blocks) c ->
+Theorem C16_logger : forall (V : Type) lat (sync0 : bool) cap (blocks : list V) c, (1 <= cap)%nat ->
+  reachable _ _ _ (prog V lat true waits_rtcmlogger sync0) sender receiver (MDone V) (init V cap blocks) c ->
   returned V (main_out V c) = true ->
   passes V (main_out V c) = blocks /\ writes V (writer_out V c) = blocks.
 Proof.
-  intros V lat cap blocks c Hc Hr Hret.
-  destruct (flushed_at_return V lat true waits_rtcmlogger cap blocks c eq_refl Hc Hr Hret) as [A B].
+  intros V lat sync0 cap blocks c Hc Hr Hret.
+  destruct (flushed_at_return V lat true waits_rtcmlogger sync0 cap blocks c eq_refl Hc Hr Hret) as [A B].
   split; [apply B; reflexivity|exact A].
 Qed.
 Print Assumptions C16_logger.
 
-Theorem C16_no_deadlock : forall (V : Type) lat cap (blocks : list V) c, (1 <= cap)%nat ->
-  reachable _ _ _ (prog V lat true true) sender receiver (MDone V) (init V cap blocks) c ->
-  final_config _ _ _ (prog V lat true true) sender receiver (MDone V) c ->
+Theorem C16_no_deadlock : forall (V : Type) lat (sync0 : bool) cap (blocks : list V) c, (1 <= cap)%nat ->
+  reachable _ _ _ (prog V lat true true sync0) sender receiver (MDone V) (init V cap blocks) c ->
+  final_config _ _ _ (prog V lat true true sync0) sender receiver (MDone V) c ->
   nth 0%nat (procs c) (MDone V) = MDone V /\ nth 1%nat (procs c) (MDone V) = WHalt V.
-Proof. intros V lat cap blocks c Hc. exact (no_deadlock V lat true true cap blocks c eq_refl Hc). Qed.
+Proof. intros V lat sync0 cap blocks c Hc. exact (no_deadlock V lat true true sync0 cap blocks c eq_refl Hc). Qed.
 Print Assumptions C16_no_deadlock.
 
 Example C16_example :
-  exists c, run (st nat) nat (ev nat) (prog nat 1%nat true true) sender receiver (MDone nat) (init nat 1%nat [4; 5]%nat)
+  exists c, run (st nat) nat (ev nat) (prog nat 1%nat true true false) sender receiver (MDone nat) (init nat 1%nat [4; 5]%nat)
               [0; 0; 1; 0; 1; 1; 0; 1; 1; 1; 0; 1; 1; 0; 0]%nat = Some c /\
             returned nat (main_out nat c) = true /\ passes nat (main_out nat c) = [4; 5]%nat /\ writes nat (writer_out nat c) = [4; 5]%nat.
 Proof. eexists. split; [vm_compute; reflexivity|]. repeat split. Qed.
@@ -37,13 +37,13 @@ Proof. eexists. split; [vm_compute; reflexivity|]. repeat split. Qed.
 
 (* In bytes: whatever blocks the reads cut the input into, the bytes passed through and the bytes
    recorded are the input. *)
-Theorem C16_bytes : forall (B : Type) lat cap (blocks : list (list B)) c, (1 <= cap)%nat ->
-  reachable _ _ _ (prog (list B) lat true waits_rtcmlogger) sender receiver (MDone (list B)) (init (list B) cap blocks) c ->
+Theorem C16_bytes : forall (B : Type) lat (sync0 : bool) cap (blocks : list (list B)) c, (1 <= cap)%nat ->
+  reachable _ _ _ (prog (list B) lat true waits_rtcmlogger sync0) sender receiver (MDone (list B)) (init (list B) cap blocks) c ->
   returned (list B) (main_out (list B) c) = true ->
   concat (passes (list B) (main_out (list B) c)) = concat blocks /\
   concat (writes (list B) (writer_out (list B) c)) = concat blocks.
 Proof.
-  intros B lat cap blocks c Hc Hr Hret.
-  destruct (C16_logger (list B) lat cap blocks c Hc Hr Hret) as [A1 A2]. rewrite A1, A2. split; reflexivity.
+  intros B lat sync0 cap blocks c Hc Hr Hret.
+  destruct (C16_logger (list B) lat sync0 cap blocks c Hc Hr Hret) as [A1 A2]. rewrite A1, A2. split; reflexivity.
 Qed.
 Print Assumptions C16_bytes.
